@@ -5,7 +5,7 @@
 (* arguments, bracketed arguments in first / middle / last position, every *)
 (* registered built-in with well-typed arguments, calls inside list and    *)
 (* dict literals, multi-statement programs with rebinding and aliasing)    *)
-(* and writes them, each with its text in three spacing styles, to the     *)
+(* and writes them, each with its text in four spacing styles, to the      *)
 (* JSON file named by the environment variable OUT_FILE.  With Sample > 0  *)
 (* additionally that many random deeper programs (RandomElement).          *)
 (***************************************************************************)
@@ -88,7 +88,12 @@ Vars2 == {<<Stmt("evs", x), Stmt("a", f), Stmt("RETURN", D(<<E("s_abc", V("a")),
 \* the same bucket is read again after a built-in has worked on (and possibly annotated, cleared or re-timed) the first read
 ReRead == {<<Stmt("a", f), Stmt("RETURN", L(<<V("a"), QB("b1")>>))>> : f \in KeyPreserving(QB("b1"), QB("b2")) \cup Other(QB("b1"), QB("b2"))}
      \cup {<<Stmt("e1", QB("b2")), Stmt("a", f), Stmt("e2", QB("b2")), Stmt("RETURN", C("concat", <<V("e2"), V("a")>>))>> : f \in KeyPreserving(V("e1"), V("e1"))}
-Structural == Single(Atoms \cup Lists1 \cup Dicts1 \cup Lit2 \cup SCalls \cup InLits) \cup Vars1 \cup Reuse
+\* the SAME statement text occurs twice and a variable on its right-hand side was rebound in between: a variable
+\* evaluates to its most recent assignment each time the statement runs
+Repeat == {<<Stmt("x", a), Stmt("x", C("concat", <<V("x"), b>>)), Stmt("x", C("concat", <<V("x"), b>>)), Stmt("RETURN", V("x"))>> : a \in LA3, b \in LA3}
+     \cup {<<Stmt("a", e), Stmt("b", V("a")), Stmt("a", f), Stmt("b", V("a")), Stmt("RETURN", L(<<V("a"), V("b")>>))>> : e \in AtomsS, f \in AtomsS \ {I(7)}}
+     \cup {<<Stmt("RETURN", V("true")), Stmt("x", a), Stmt("RETURN", C("limit_events", <<V("x"), I(1)>>)), Stmt("x", b), Stmt("RETURN", C("limit_events", <<V("x"), I(1)>>))>> : a \in LA3, b \in LA3}
+Structural == Single(Atoms \cup Lists1 \cup Dicts1 \cup Lit2 \cup SCalls \cup InLits) \cup Vars1 \cup Reuse \cup Repeat
 WithBuiltins == Single(Builtins1 \cup Builtins2 \cup BInLits) \cup Vars2 \cup ReRead
 
 \* ---- random deeper programs -----------------------------------------------------------------
